@@ -116,7 +116,7 @@ struct Out {
 
 // Run f in a forked child with an alarm; its stdout text (written to the pipe through the FILE*
 // given) is returned.  Crash / timeout become the outcome strings "CRASH(sig)" / "HANG".
-static inline std::string in_child(std::function<void(FILE*)> f, unsigned seconds = 5) {
+static inline std::string in_child(std::function<void(FILE*)> f, unsigned seconds = 30) {
     int fd[2];
     if (pipe(fd) != 0) return "PIPEFAIL";
     fflush(NULL);
